@@ -31,10 +31,11 @@ func c11Password(c *core.Ctx, p *spg.Password, origin string, rp map[string]inte
 		if n > 255 {
 			encodable = false
 		}
-		if n == 0 || t.T > 1 {
-			// empty tokens and undocumented type bytes are outside the
-			// property's premise (tokens of 1..255 characters, atoms and
-			// separators); only counted
+		if n == 0 {
+			// empty tokens are outside the property's premise (tokens of
+			// 1..255 characters); only counted. Type bytes other than
+			// atom/separator are constructible through Tokenize and are
+			// inside it: such sequences are neither all-atom nor alternating
 			hasEmpty = true
 		}
 	}
@@ -253,6 +254,71 @@ func c11Run(c *core.Ctx) {
 				if err == nil {
 					c11Password(c, &p, "pattern", map[string]interface{}{"pw": pw, "index": bytesToInts(idx)})
 				}
+			}
+		}
+	}
+	// long tokens inside sequences that need the full index: a separator
+	// function that returns nothing for some gaps puts two atoms side by side.
+	// 255 characters must encode, 256 must be refused (never a lossy index);
+	// the long token is a word or the separator
+	for _, long := range []int{254, 255, 256, 300} {
+		for _, unit := range []string{"x", "é"} {
+			for _, w := range []WLCase{
+				{Words: []string{strings.Repeat(unit, long), "b"}, Length: 3, Cap: "none", Sep: Sep{Kind: "customMixed"}},
+				{Words: []string{"a", "b"}, Length: 3, Cap: "none", Sep: Sep{Kind: "customMixed", Char: strings.Repeat(unit, long)}},
+				{Words: []string{strings.Repeat(unit, long)}, Length: 4, Cap: "first", Sep: Sep{Kind: "customMixed", Char: "--"}},
+			} {
+				if c.Mine() {
+					c11WLCase(c, w, CellOpt{DepthCut: 64, Fallback: 2, MaxMenu: 20000, MaxLeaves: 5000, Dev: -1})
+				}
+			}
+		}
+	}
+	// a 255-character token with an unusual type byte (through Tokenize)
+	for _, ty := range []byte{2, 7, 255} {
+		for _, unit := range []string{"x", "é"} {
+			pw := "a" + strings.Repeat(unit, 255) + "b"
+			for _, idx := range [][]byte{{3, 1, 0, 255, ty, 1, 0}, {3, 1, 1, 255, ty, 1, 1}, {3, 255 - 254, ty, 255, 0, 1, ty}} {
+				if !c.Mine() {
+					continue
+				}
+				p, err := spg.Tokenize(pw, idx, 3.5)
+				c.Count("tokenize_constructions", 1)
+				if err == nil {
+					c11Password(c, &p, "typed-long", map[string]interface{}{"pw": pw, "index": bytesToInts(idx)})
+				}
+			}
+		}
+	}
+	// every pattern of 1..5 tokens over the type bytes {separator, atom, 2, 255}
+	// (a full index carries the type byte verbatim)
+	tyset := []byte{0, 1, 2, 255}
+	for n := 1; n <= 5; n++ {
+		total := 1
+		for i := 0; i < n; i++ {
+			total *= len(tyset)
+		}
+		for pat := 0; pat < total; pat++ {
+			if !c.Mine() {
+				continue
+			}
+			idx := []byte{3}
+			pw := ""
+			unusual := false
+			for i, p := 0, pat; i < n; i, p = i+1, p/len(tyset) {
+				ty := tyset[p%len(tyset)]
+				unusual = unusual || ty > 1
+				l := 1 + i%2
+				idx = append(idx, byte(l), ty)
+				pw += strings.Repeat(string(rune('a'+i)), l)
+			}
+			if !unusual {
+				continue // covered above
+			}
+			p, err := spg.Tokenize(pw, idx, 3.5)
+			c.Count("tokenize_constructions", 1)
+			if err == nil {
+				c11Password(c, &p, "typed-pattern", map[string]interface{}{"pw": pw, "index": bytesToInts(idx)})
 			}
 		}
 	}
